@@ -34,4 +34,5 @@ pub(super) use xxh3::hash128_with_seed;
 #[cfg(redb_verif)]
 pub(crate) mod verif_export {
     pub(crate) use super::buddy_allocator::BuddyAllocator;
+    pub(crate) use super::cached_file::VerifCache;
 }
